@@ -1,0 +1,76 @@
+//go:build verif
+
+package literal
+
+// Contracts for the gowp verifier (/verif). Comment-only file.
+
+// Representation invariant of a literal: the dynamic type of the boxed value matches the tag.
+//@ spec macro wfLit(l *Literal) Bool = l != nil && (l.t == Bool ==> typeis(l.v, "bool")) && (l.t == Int64 ==> typeis(l.v, "int64")) && (l.t == Float64 ==> typeis(l.v, "float64")) && (l.t == Text ==> typeis(l.v, "string")) && (l.t == Blob ==> typeis(l.v, "[]byte")) && 0 <= l.t && l.t <= Blob
+
+//@ props C15 C08
+//@ func (b *unboundBuilder) Parse
+//@   opt terminates
+//@   opt replay-recv &unboundBuilder{}
+//@   ensures[value-or-error] (result0 != nil && result1 == nil) || (result0 == nil && result1 != nil)
+//@   ensures[well-formed] result0 != nil ==> wfLit(result0)
+
+//@ func (b *unboundBuilder) Build
+//@   opt replay-recv &unboundBuilder{}
+//@   ensures[value-or-error] (result0 != nil && result1 == nil) || (result0 == nil && result1 != nil)
+//@   ensures[value] result0 != nil ==> fresh(result0) && result0.t == t && result0.v == v
+//@   ensures[well-formed] result0 != nil ==> wfLit(result0)
+
+//@ func (b *boundedBuilder) Parse
+//@   opt terminates
+//@   requires b != nil
+//@   ensures[value-or-error] (result0 != nil && result1 == nil) || (result0 == nil && result1 != nil)
+//@   ensures[well-formed] result0 != nil ==> wfLit(result0)
+
+//@ func (b *boundedBuilder) Build
+//@   requires b != nil
+//@   ensures[value-or-error] (result0 != nil && result1 == nil) || (result0 == nil && result1 != nil)
+//@   ensures[well-formed] result0 != nil ==> wfLit(result0)
+
+//@ func (l *Literal) Type
+//@   requires l != nil
+//@   ensures result == l.t
+
+//@ func (l *Literal) Bool
+//@   requires wfLit(l)
+//@   ensures[value-or-error] (result1 == nil) <==> l.t == Bool
+
+//@ func (l *Literal) Int64
+//@   requires wfLit(l)
+//@   ensures[value-or-error] (result1 == nil) <==> l.t == Int64
+//@   ensures[value] result1 == nil ==> result0 == unbox(l.v, "int64")
+
+//@ func (l *Literal) Float64
+//@   requires wfLit(l)
+//@   ensures[value-or-error] (result1 == nil) <==> l.t == Float64
+
+//@ func (l *Literal) Text
+//@   requires wfLit(l)
+//@   ensures[value-or-error] (result1 == nil) <==> l.t == Text
+//@   ensures[value] result1 == nil ==> result0 == unbox(l.v, "string")
+
+//@ func (l *Literal) Blob
+//@   requires wfLit(l)
+//@   ensures[value-or-error] (result1 == nil) <==> l.t == Blob
+
+// Interface contract: what every literal.Builder promises its callers. The two
+// implementations above carry (at least) the same postconditions.
+//@ func (this Builder) Parse
+//@   nobody
+//@   pure
+//@   ensures[value-or-error] (result0 != nil && result1 == nil) || (result0 == nil && result1 != nil)
+//@   ensures[well-formed] result0 != nil ==> wfLit(result0)
+
+//@ func (this Builder) Build
+//@   nobody
+//@   pure
+//@   ensures[value-or-error] (result0 != nil && result1 == nil) || (result0 == nil && result1 != nil)
+//@   ensures[well-formed] result0 != nil ==> wfLit(result0)
+
+//@ func init#1
+//@   opt modifies-everything true
+//@ globalinv[defaultBuilder-set] by init#1: defaultBuilder != nil
